@@ -24,6 +24,30 @@ func classify(relic, ref []byte) []string {
 	if err != nil {
 		return []string{"reference-output-not-lexable"}
 	}
+	// processing instructions: relic drops them all; note it once and compare the rest
+	hasPI := func(t []xmlgen.Token) bool {
+		for _, x := range t {
+			if x.Kind == xmlgen.PI {
+				return true
+			}
+		}
+		return false
+	}
+	if hasPI(ft) && !hasPI(rt) {
+		set["pi-dropped"] = true
+		var keep []xmlgen.Token
+		for k, x := range ft {
+			if x.Kind == xmlgen.PI {
+				// at document level the canonical form separates PIs from the root by a line feed
+				continue
+			}
+			if x.Kind == xmlgen.Text && x.Raw == "\n" && x.Depth == 0 && (k == 0 || ft[k-1].Kind == xmlgen.PI || (k+1 < len(ft) && ft[k+1].Kind == xmlgen.PI)) {
+				continue
+			}
+			keep = append(keep, x)
+		}
+		ft = keep
+	}
 	rt, ft = mergeText(rt), mergeText(ft)
 	var rendered []map[string]string // namespace declarations rendered by the reference, per open element
 	i, j := 0, 0
@@ -84,7 +108,7 @@ func classify(relic, ref []byte) []string {
 			}
 		case xmlgen.Text:
 			if a.Raw != b.Raw {
-				set["text:"+midClass(a.Raw, b.Raw)] = true
+				set["text:"+valueDiffName(a.Raw, b.Raw)] = true
 			}
 		default:
 			if a.Raw != b.Raw {
@@ -240,7 +264,7 @@ func compareTags(a, b xmlgen.Token, rendered []map[string]string, set map[string
 			set["attr-extra"] = true
 		} else if v != x.v {
 			same = false
-			set["attr-value:"+midClass(x.v, v)] = true
+			set["attr-value:"+valueDiffName(x.v, v)] = true
 		}
 	}
 	for _, x := range bat {
@@ -267,34 +291,29 @@ func compareTags(a, b xmlgen.Token, rendered []map[string]string, set map[string
 	}
 }
 
-// midClass abstracts the differing middle of two strings: "<relic>|<reference>"
-// with runs of letters/digits collapsed and control characters spelled out.
-func midClass(a, b string) string {
+// middles trims the common prefix and suffix of two strings without cutting a
+// character reference in half.
+func middles(a, b string) (string, string) {
 	p := 0
 	for p < len(a) && p < len(b) && a[p] == b[p] {
 		p++
 	}
-	// do not cut a reference in half
 	if k := strings.LastIndexByte(a[:p], '&'); k >= 0 && !strings.Contains(a[k:p], ";") {
 		p = k
 	}
 	a, b = a[p:], b[p:]
-	s := 0
-	for s < len(a) && s < len(b) && a[len(a)-1-s] == b[len(b)-1-s] {
-		s++
+	q := 0
+	for q < len(a) && q < len(b) && a[len(a)-1-q] == b[len(b)-1-q] && a[len(a)-1-q] != ';' {
+		q++
 	}
-	for s > 0 && s <= len(a) && s <= len(b) {
-		tail := a[len(a)-s:]
-		if k := strings.IndexByte(tail, ';'); k >= 0 && !strings.Contains(tail[:k], "&") {
-			s -= k + 1
-			continue
-		}
-		break
-	}
-	if s < 0 {
-		s = 0
-	}
-	return abstract(a[:len(a)-s]) + "|" + abstract(b[:len(b)-s])
+	return a[:len(a)-q], b[:len(b)-q]
+}
+
+// midClass abstracts the differing middle of two strings: "<relic>|<reference>"
+// with runs of letters/digits collapsed and control characters spelled out.
+func midClass(a, b string) string {
+	ra, rb := middles(a, b)
+	return abstract(ra) + "|" + abstract(rb)
 }
 
 func abstract(s string) string {
@@ -338,4 +357,46 @@ func abstract(s string) string {
 		return "{}"
 	}
 	return b.String()
+}
+
+// valueDiffName gives the well-understood value differences a readable name
+// and falls back to the abstracted differing middle.
+func valueDiffName(relic, ref string) string {
+	u1, ok1 := xmlgen.Unescape(relic)
+	u2, ok2 := xmlgen.Unescape(ref)
+	if ok1 && ok2 {
+		r1, r2 := []rune(u1), []rune(u2)
+		if u1 == u2 {
+			ra, rb := middles(relic, ref)
+			return "escaping-only:" + abstract(ra) + "|" + abstract(rb)
+		}
+		if len(r1) == len(r2) {
+			lit, refd := true, true
+			for i := range r1 {
+				if r1[i] == r2[i] {
+					continue
+				}
+				ws1 := r1[i] == '\t' || r1[i] == '\n' || r1[i] == '\r'
+				ws2 := r2[i] == '\t' || r2[i] == '\n' || r2[i] == '\r'
+				if !(r2[i] == ' ' && ws1) {
+					lit = false
+				}
+				if !(r1[i] == ' ' && ws2) {
+					refd = false
+				}
+			}
+			if lit {
+				return "literal-whitespace-not-normalised-to-blank"
+			}
+			if refd {
+				return "whitespace-character-reference-became-blank"
+			}
+		}
+		strip := strings.NewReplacer("\r", "", "\n", "")
+		if strings.Contains(u2, "\r") && !strings.Contains(u1, "\r") && strip.Replace(u1) == strip.Replace(u2) {
+			return "carriage-return-lost"
+		}
+	}
+	ra, rb := middles(relic, ref)
+	return abstract(ra) + "|" + abstract(rb)
 }
